@@ -414,7 +414,9 @@ KEY_ATTRS = {'_PolyHelper': ('poly_order',), '_PolyHelper2D': ('poly_order', 'ma
              'SplineBasis': ('num_knots', 'spline_degree'), 'SplineBasis2D': ('num_knots', 'spline_degree')}
 KEY_FILES = ['pybaselines/_algorithm_setup.py', 'pybaselines/two_d/_algorithm_setup.py',
              'pybaselines/_spline_utils.py', 'pybaselines/two_d/_spline_utils.py']
-COPYING_CALLS = {'array', 'int', 'float', 'tuple', 'bool', 'copy', 'deepcopy', 'astype', 'full', 'list'}
+# calls whose result is a new object or an immutable python / numpy scalar: np.array(<anything>) (without copy=False),
+# int(...), tuple(...), <array>.copy(), <array>.astype(...), np.asarray(<arg>).item(), ...
+COPYING_CALLS = {'array', 'int', 'float', 'tuple', 'bool', 'copy', 'deepcopy', 'astype', 'full', 'list', 'item', 'tolist'}
 RANK = ['KConst', 'KCopy', 'KCheckedScalar', 'KChecked2D', 'KRaw', 'KUnknown']
 
 
@@ -460,6 +462,9 @@ class KeyStores:
                     return 'KCheckedScalar'
                 return 'KChecked2D'
             if name in COPYING_CALLS:
+                if any(k.arg == 'copy' and not (isinstance(k.value, ast.Constant) and k.value.value is True)
+                       for k in expr.keywords):
+                    return 'KUnknown'        # np.array(x, copy=False) / astype(..., copy=False) may alias
                 return 'KCopy'
             return 'KUnknown'
         if isinstance(expr, ast.Name):
